@@ -161,6 +161,16 @@ func vf06RoundTrip(st *vfStats, t vfFataler, src vf06Src, raw1 []byte, f *Finger
 		st.Class("excluded:empty-padding")
 		return
 	}
+	// hellos whose extensions block is close to 2^16 belong to C02 (a re-applied hello that grows by a byte runs
+	// into C02:extensions-block-overflow)
+	blk := 0
+	for _, e := range h1.Exts {
+		blk += 4 + len(e.Body)
+	}
+	if blk > 60000 {
+		st.Class("excluded:near-2^16")
+		return
+	}
 	st.Eval()
 	st.Class("source:" + src.Kind)
 	raw2, stage, err := vf06Reapply(f, raw1, vf06SNILen(h1), fill, seed)
@@ -183,7 +193,7 @@ func vf06RoundTrip(st *vfStats, t vfFataler, src vf06Src, raw1 []byte, f *Finger
 	}
 	h2 := vfParseClientHello(raw2)
 	if len(h2.Violations) != 0 {
-		st.Violation(t, "%s: regenerated hello is not valid: %v", what, h2.Violations)
+		st.Violation(t, "%s: regenerated hello is not valid: %v (H1 %d bytes %s; H2 %d bytes %s)", what, h2.Violations, len(raw1), vf06ExtSizes(raw1), len(raw2), vf06ExtSizes(raw2))
 	}
 	dropPad := f.AlwaysAddPadding && h1.Ext(21) == nil // the flag may add a padding extension H1 did not have
 	dropPSK := f.RealPSKResumption                      // a real PSK extension without a session is omitted
@@ -322,4 +332,26 @@ func vf06WithCompression(h *vfHello, comp []uint8) []byte {
 	body = append(body, byte(len(eb)>>8), byte(len(eb)))
 	body = append(body, eb...)
 	return append([]byte{1, byte(len(body) >> 16), byte(len(body) >> 8), byte(len(body))}, body...)
+}
+
+// vf06ExtSizes lists type:size of the extensions found after compression_methods, ignoring the block length field
+// (diagnostics for hellos whose block length is wrong).
+func vf06ExtSizes(raw []byte) string {
+	if len(raw) < 4 {
+		return ""
+	}
+	r := &vfRd{b: raw[4:]}
+	r.u16()
+	r.take(32)
+	r.vec8()
+	r.vec16()
+	r.vec8()
+	r.u16()
+	var out []string
+	for !r.empty() && !r.err {
+		t := r.u16()
+		b := r.vec16()
+		out = append(out, fmt.Sprintf("%d:%d", t, len(b)))
+	}
+	return strings.Join(out, " ")
 }
